@@ -51,6 +51,12 @@ ML_CONFIGS = [
     dict(model="HKY85", mkw=dict(with_rate=True, distribution="gamma"), bins=2),
     dict(model="TN93", mkw=dict(with_rate=True, distribution="gamma"), bins=3),
     dict(model="HKY85", mkw=dict(with_rate=True, distribution="gamma"), bins=2, loci=["a", "b"]),
+    # site classes whose rates / factors follow a FREE distribution: the model then has an optimisable leaf
+    # definition that is not a user parameter (`<param>_partition`): the optimiser moves it, rules do not name it
+    dict(model="HKY85", mkw=dict(ordered_param="rate", distribution="free"), bins=2),
+    dict(model="HKY85", mkw=dict(ordered_param="kappa", distribution="free"), bins=3),
+    dict(model="F81", mkw=dict(ordered_param="rate", distribution="free"), bins=2, loci=["a", "b"]),
+    dict(model="TN93", mkw=dict(ordered_param="rate", partitioned_params=["kappa_y"], distribution="free"), bins=2),
 ]
 
 
@@ -340,11 +346,58 @@ def observe(lf):
         except Exception as ex:  # noqa
             d["mprobs"] = type(ex).__name__
         # the full optimiser parameter vector of a calculator made from the function
+        # (make_calculator() runs update() on EVERY definition, whatever the dirty set says: lnL read after it is
+        # the recomputed value, the one read above is what the function reported after the operation)
         try:
-            d["optvec"] = sorted(float(x) for x in lf.make_calculator().get_value_array())
+            lc = lf.make_calculator()
+            d["optvec"] = sorted(float(x) for x in lc.get_value_array())
+            d["calc_value"] = float(lc.testfunction())
+            d["lnL_recomputed"] = float(lf.lnL)
         except Exception as ex:  # noqa
             d["optvec"] = type(ex).__name__
     return d
+
+
+def hidden_optpars(lf):
+    """leaf definitions with free parameters that are NOT user parameters (get_param_names / get_param_rules do
+    not name them), e.g. the `rate_partition` of a free distribution over site classes"""
+    from cogent3.recalculation.scope import _LeafDefn
+
+    visible = set(lf.get_param_names())
+    return [d.name for d in lf.defns if isinstance(d, _LeafDefn) and d.name not in visible
+            and d.get_num_free_params() > 0]
+
+
+def hidden_snapshot(lf):
+    """{defn name: [(scope keys, is_constant, (lower, value, upper))]} one entry per distinct setting object"""
+    import copy as _copy
+
+    snap = {}
+    for name in hidden_optpars(lf):
+        groups = {}
+        for scope_t, setting in lf.defn_for[name].assignments.items():
+            groups.setdefault(id(setting), (setting, []))[1].append(scope_t)
+        snap[name] = [(keys, bool(st.is_constant), _copy.deepcopy(st.get_bounds() if not st.is_constant else (None, st.value, None)))
+                      for st, keys in groups.values()]
+    return snap
+
+
+def apply_hidden(lf, snap):
+    """give a function the settings of the definitions rules cannot name"""
+    import copy as _copy
+
+    from cogent3.recalculation.setting import ConstVal, Var
+
+    for name, groups in snap.items():
+        defn = lf.defn_for[name]
+        for keys, const, bounds in groups:
+            st = ConstVal(_copy.deepcopy(bounds[1])) if const else Var(_copy.deepcopy(bounds))
+            for k in keys:
+                assert k in defn.assignments, k
+                defn.assignments[k] = st
+    if snap:
+        with _Quiet():
+            lf.update_intermediate_values()
 
 
 def vec_close(a, b, tol=1e-9):
@@ -439,6 +492,10 @@ def rand_ml_case(rng, n_ops, opt_budget=(3, 8)):
             ops.append(["calc", rng.randrange(10**9), rng.randint(2, 5)])
         else:
             ops.append(["opt", dict(max_evaluations=rng.choice(opt_budget), local=True)])
+    if (cfg.get("mkw") or {}).get("distribution") == "free" and not any(o[0] in ("calc", "opt") for o in ops):
+        # the calculator -> function hand-back is what these configurations are for
+        ops.insert(rng.randrange(len(ops) + 1), rng.choice([["calc", rng.randrange(10**9), rng.randint(2, 5)],
+                                                             ["opt", dict(max_evaluations=rng.choice(opt_budget), local=True)]]))
     case["ops"] = ops
     return case
 
@@ -484,15 +541,18 @@ def rules_canon(lf):
     return sorted(json.dumps({k: enc(v) for k, v in r.items()}, sort_keys=True) for r in rules)
 
 
-def fresh_from_rules(case, lf, aln_idx, reorder=False):
+def fresh_from_rules(case, lf, aln_idx, reorder=False, hidden=False):
     """oracle O2: a NEW function given the exported rules (reorder=True: diagnostic, the same rules
-    with, per parameter, the rules of larger scope rectangles first)"""
+    with, per parameter, the rules of larger scope rectangles first; hidden=True: diagnostic, the settings
+    of the optimisable definitions that rules cannot name are copied over as well)"""
     f = new_lf(dict(case, aln0=aln_idx))
     with _Quiet():
         rules = lf.get_param_rules()
         if reorder:
             rules = rules_large_scope_first(lf, rules)
         f.apply_param_rules(rules)
+    if hidden:
+        apply_hidden(f, hidden_snapshot(lf))
     return f
 
 
